@@ -1,7 +1,8 @@
 #!/usr/bin/env python3
 """Binding demonstration without touching the sources: corrupt one recorded field / drop / swap events of a GOOD
 recorded execution and confirm that Trace_ProjDataStore rejects each corrupted trace (and accepts the original).
-usage: selftest/C02/corrupt_trace.py <good-trace.ndjson>   (e.g. .build/work/C02/rand.ndjson after bin/check C02)"""
+usage: selftest/C02/corrupt_trace.py <rand.ndjson> [<multi.ndjson>]   (e.g. .build/work/C02/rand.ndjson .build/work/C02/multi.ndjson
+after bin/check C02)"""
 import copy, json, os, sys, tempfile
 sys.path.insert(0, os.path.join(os.path.dirname(os.path.abspath(__file__)), "..", ".."))
 from checks import lib
@@ -57,6 +58,43 @@ def main():
     i = idx(lambda r: r["e"] == "Reopen" and not r["err"]); c = copy.deepcopy(ex); c[i]["lay"]["seq"] = list(reversed(c[i]["lay"]["seq"])); cases.append(("re-read segment sequence altered", c))
     # 8 stale file: the image after a write is the image before it (what a missing flush looks like)
     i = idx(lambda r: r["e"] == "SetBin" and not r["err"] and r["file"] != ex[ex.index(r) - 1]["file"]); c = copy.deepcopy(ex); c[i]["file"] = copy.deepcopy(c[i - 1]["file"]); cases.append(("stale file image after a write", c))
+    # ---- round 2: one corruption per new kind of line, each in the execution that contains it
+    def execution_with(path, pred):
+        recs, cur, hit = lib.read_ndjson(path), None, None
+        for r in recs:
+            if r["e"] == "Config":
+                if cur is not None and hit is not None:
+                    return cur, hit
+                cur, hit = [r], None
+            elif cur is not None:
+                cur.append(r)
+                if hit is None and pred(r, cur[0]):
+                    hit = len(cur) - 1
+        return (cur, hit) if hit is not None else (None, None)
+
+    def add(name, path, pred, mutate):
+        e, i = execution_with(path, pred)
+        if e is None:
+            print("%-40s -> (no such line in this recording)" % name)
+            return
+        e = [x for x in copy.deepcopy(e[: i + 1])]
+        mutate(e[i])
+        cases.append((name, e))
+
+    rand = sys.argv[1]
+    multi = sys.argv[2] if len(sys.argv) > 2 else None
+    add("sapyb operand altered", rand, lambda r, c: r["e"] == "Sapyb" and not r["err"], lambda r: r["y"].__setitem__(0, r["y"][0] + 1))
+    add("sum() altered beyond the tolerance", rand, lambda r, c: r["e"] == "Stats" and not r["err"], lambda r: r.__setitem__("sum", r["sum"] + 5 + abs(r["sum"]) // 1000))
+    add("maximum altered", rand, lambda r, c: r["e"] == "Stats" and not r["err"], lambda r: r.__setitem__("max", r["max"] + 1))
+    add("subset: list of views altered", rand, lambda r, c: r["e"] == "Subset" and not r["err"] and len(r["views"]) >= 2, lambda r: r["views"].reverse())
+    add("fill from wider source: value altered", rand, lambda r, c: r["e"] == "FillWide" and not r["err"], lambda r: r["vals"].__setitem__(0, 999999))   # (first value: segment 0, always part of the destination)
+    add("fill from narrower source accepted", rand, lambda r, c: r["e"] == "FillNarrow", lambda r: r.__setitem__("err", False))
+    add("re-attached object: other byte order", rand, lambda r, c: r["e"] == "Reattach" and not r["err"], lambda r: r["lay"].__setitem__("big", not r["lay"]["big"]))
+    add("standard segment sequence altered", rand, lambda r, c: r["e"] == "StdSeq" and len(r["seq"]) >= 3, lambda r: r["seq"].reverse())
+    if multi:
+        add("multi: frame index off by one", multi, lambda r, c: r["e"] == "MGet" and c["K"] >= 2, lambda r: r.__setitem__("idx", r["idx"] % 2 + 1))
+        add("multi: frame duration altered", multi, lambda r, c: r["e"] == "MRead" and not r["err"], lambda r: r["frames"][-1].__setitem__(1, r["frames"][-1][1] + 16))
+        add("multi: calibration factor altered", multi, lambda r, c: r["e"] == "MCalib" and not r["err"], lambda r: r.__setitem__("f", r["f"] + 1))
     failed = 0
     for name, c in cases:
         bad = new_lines(c)
